@@ -406,6 +406,11 @@ func c11run(c *c11case, x []byte) map[string]interface{} {
 		o["containers"], o["blocks"], o["kinds"] = nc, nb, kinds
 		o["final"] = c11cls(r.Err())
 		o["err"] = c11errs(r.Err())
+	case "itf8slice":
+		// errorReader.itf8slice through the verif hook of package cram
+		vs, err := cram.VerifReadITF8Slice(bytes.NewReader(x))
+		o["cls"], o["err"] = c11cls(err), c11errs(err)
+		o["n"] = len(vs)
 	default:
 		return map[string]interface{}{"bad_case": "op"}
 	}
